@@ -113,9 +113,25 @@ Proof.
     now apply (Hr (k', v')).
 Qed.
 
+Lemma premove_in k ps kv : In kv (premove k ps) -> In kv ps.
+Proof.
+  induction ps as [|[k' v'] ps IH]; cbn; [auto|]. destruct (String.eqb k k'); cbn; intuition.
+Qed.
+
+Lemma premove_params_ok k ps : params_ok ps -> params_ok (premove k ps).
+Proof.
+  intros [Hn Hr]. split.
+  - induction ps as [|[k' v'] ps IH]; cbn; [constructor|]. cbn in Hn. inversion Hn as [|? ? Hni Hn']; subst.
+    assert (Hr' : Forall (fun kv => reserved (fst kv) = false) ps) by now inversion Hr.
+    destruct (String.eqb k k'); [now apply IH|]. cbn. constructor; [|now apply IH].
+    intros Hin. apply Hni. apply in_map_iff in Hin as (kv & E & Hin). apply in_map_iff. exists kv. split; [exact E|].
+    now apply (premove_in k).
+  - rewrite Forall_forall in *. intros kv Hin. apply Hr. now apply (premove_in k).
+Qed.
+
 Lemma run_hook_ok s h o t ps f : hook_ok2 h -> params_ok ps -> params_ok (run_hook s h o t ps f).
 Proof.
-  destruct h; cbn; intros Hh Hp; [exact Hp|now apply pset_params_ok|].
+  destruct h; cbn; intros Hh Hp; [exact Hp|now apply pset_params_ok| |now apply premove_params_ok].
   apply pset_params_ok; [reflexivity|exact Hp].
 Qed.
 
